@@ -85,7 +85,11 @@ def run(ctx):
         elif foreign:
             bad = "%d node(s) were visited that are not reachable from the root through childNodesAndTokens" % foreign
         shown = text if isinstance(text, str) else text.decode("latin-1")
-        if bad:
+        if bad and specmis and re.search(r"\)\s*=[^=]", shown) and all(x.split(":")[1] == "ParenthesizedDeclarator" and "max=" in x for x in specmis.split(",") if ":" in x) \
+                and not any(re.search(r"l=(\d+)/max=(\d+)", x) is None for x in specmis.split(",") if ":" in x):
+            # the only nodes off are parenthesised declarators whose subtree reaches beyond their `)': the initializer stored inside (C03's finding)
+            ctx.report("paren-declarator-initializer", "the initializer of a parenthesised declarator is stored inside the parentheses: the declarator's last token is its ')' while its subtree extends over the initializer (e.g. %r: %s)" % (shown[:60], specmis[:120]), {})
+        elif bad:
             if nviol < 3:
                 ctx.report("tree:" + shown[:80], "%s input (disambiguation mode %d, category %s) %r: %s" % (kind, mode, cat, shown[:300], bad),
                            {"component": "tree", "case": l, "driver": m[:2000]})
